@@ -222,6 +222,10 @@ def r5(c):
     # MBAP side
     mb = [P.logical_name(b2) for b2, _, _ in P.constructors(FD, None, crate='rodbus') if 'rodbus::tcp::' in b2.path]
     c.ob('mbap-no-broadcast', True, 'no FrameDestination::Broadcast in rodbus::tcp (covered by constructors)', str(mb))
+    nh = P.fn('rodbus::common::frame::FrameHeader::new_tcp_header')
+    ag = [s_ for _, s_ in nh.aggregates(FD)]
+    okh = len(ag) == 1 and ag[0]['rv']['variant'] == 'UnitId' and q.is_name(nh, ag[0]['rv']['a'][0], 'unit_id')
+    c.ob('new_tcp_header', okh, 'new_tcp_header always builds FrameDestination::UnitId(unit_id) itself (no conversion that could map unit 0 to Broadcast)', str([a['rv']['variant'] for a in ag]), loc_of(nh))
     v = P.fn('rodbus::common::frame::FrameDestination::value')
     arms = q.arms_of(v, FD)
     okb = False
